@@ -13,6 +13,7 @@ import (
 	"github.com/anacrolix/dht/v2"
 	"github.com/anacrolix/dht/v2/krpc"
 	peer_store "github.com/anacrolix/dht/v2/peer-store"
+	"github.com/anacrolix/torrent/metainfo"
 
 	"verif/explore"
 	"verif/sim"
@@ -180,6 +181,9 @@ func runC11(t *testing.T, c explore.Case) (res explore.Result) {
 	if c.Unit == "schedule" {
 		return runC11Schedule(t, c)
 	}
+	if c.Unit == "hook" {
+		return runC11Hook(t, c)
+	}
 	var keyParts []string
 	p := Bubble(t, func() {
 		y := NewSys(WithPeerStore())
@@ -286,6 +290,65 @@ func runC11Schedule(t *testing.T, c explore.Case) (res explore.Result) {
 	return
 }
 
+// Hook case: the application's OnAnnouncePeer hook is slow (parked until the harness releases it).
+// The announce was accepted and acknowledged, so get_peers must return the endpoint whether or not
+// the hook has returned yet. H: "blocked" (probe while the hook is parked) or "released".
+func runC11Hook(t *testing.T, c explore.Case) (res explore.Result) {
+	p := Bubble(t, func() {
+		gate := make(chan struct{})
+		calls := 0
+		var mu sync.Mutex
+		y := NewSys(WithPeerStore(), func(cfg *dht.ServerConfig) {
+			cfg.OnAnnouncePeer = func(ih metainfo.Hash, ip net.IP, port int, portOk bool) {
+				mu.Lock()
+				calls++
+				mu.Unlock()
+				<-gate
+			}
+		})
+		released := false
+		defer func() {
+			if !released {
+				close(gate)
+			}
+			y.Close()
+		}()
+		ref := &c11Ref{m: map[string]krpc.NodeAddr{}}
+		for i, src := range []string{"v4", "v6"} {
+			ws, ok := y.c11Announce(src, "A", 4000+i, false, false)
+			if outs := DecodeWrites(ws); !ok || len(outs) != 1 || outs[0].Y() != "r" {
+				res.Viol = "announce-not-acknowledged: " + Briefs(ws)
+				return
+			}
+			ref.m[ref.key("A", sources[src].IP)] = krpc.NodeAddr{IP: sources[src].IP, Port: 4000 + i}
+			res.Steps++
+		}
+		synctest.Wait()
+		mu.Lock()
+		n := calls
+		mu.Unlock()
+		if n != 2 {
+			res.Viol = fmt.Sprintf("hook-not-called: OnAnnouncePeer ran %d times for 2 accepted announces", n)
+			return
+		}
+		if c.H[0] == "released" {
+			released = true
+			close(gate)
+			synctest.Wait()
+		}
+		if v := y.c11Probe(ref); v != "" {
+			res.Viol = v + " (two accepted and acknowledged announces; the application's OnAnnouncePeer hook is " + c.H[0] + ")"
+			return
+		}
+		res.Steps += 16
+		res.Outcome = "hook " + c.H[0]
+	})
+	if p != "" && res.Viol == "" {
+		res.Viol = "panic: " + p
+	}
+	return
+}
+
 func init() { runners["C11"] = runC11 }
 
 func TestC11(t *testing.T) {
@@ -298,7 +361,7 @@ func TestC11(t *testing.T) {
 	w.Bound("depth", depth)
 	alpha := c11Alphabet(w.Thorough())
 	w.Bound("alphabet", len(alpha))
-	w.SetRule("BFS over announce histories (sources: IPv4 4-byte form, the same IPv4 in 16-byte form, same IP other port, IPv6, another IPv4; 2 infohashes; ports 1/80/65535 with and without implied_port; wrong-token announces) with the bundled in-memory peer store; after every event all 16 get_peers probes (2 infohashes x want in {absent,n4,n6,both} x IPv4/IPv6 requester) are compared with a reference map (infohash, raw IP) -> endpoint: values subset of announced endpoints, every wanted-family endpoint present, 6/18-byte widths per BEP 32, token present; plus the 2-schedule case of two announces from one IP whose asynchronous store updates are released in both orders")
+	w.SetRule("BFS over announce histories (sources: IPv4 4-byte form, the same IPv4 in 16-byte form, same IP other port, IPv6, another IPv4; 2 infohashes; ports 1/80/65535 with and without implied_port; wrong-token announces) with the bundled in-memory peer store; after every event all 16 get_peers probes (2 infohashes x want in {absent,n4,n6,both} x IPv4/IPv6 requester) are compared with a reference map (infohash, raw IP) -> endpoint: values subset of announced endpoints, every wanted-family endpoint present, 6/18-byte widths per BEP 32, token present; plus the 2-schedule case of two announces from one IP whose asynchronous store updates are released in both orders, and the case of a slow application OnAnnouncePeer hook (probed while parked and after release)")
 	idx := 0
 	for _, first := range alpha {
 		u := idx
@@ -318,6 +381,17 @@ func TestC11(t *testing.T) {
 			c := explore.Case{Prop: "C11", Unit: "schedule", H: []string{order}}
 			w.Journal(c)
 			r := runC11Schedule(t, c)
+			w.Record(c, r)
+			w.AddStates(1)
+		}
+	}
+	idx++
+	if u := idx; w.Mine(u) {
+		w.BeginUnit(u, "hook")
+		for _, mode := range []string{"blocked", "released"} {
+			c := explore.Case{Prop: "C11", Unit: "hook", H: []string{mode}}
+			w.Journal(c)
+			r := runC11Hook(t, c)
 			w.Record(c, r)
 			w.AddStates(1)
 		}
